@@ -71,7 +71,7 @@ func convertTrace(evs []verif.Event, w *hlib.NDJSON, report *Report) int {
 			key, crc, ln := dig(e)
 			curTop[trimGen(S(e, "t"))] = S(e, "t")
 			put(map[string]interface{}{"ev": e.Ev, "t": S(e, "t"), "id": S(e, "id"), "key": key, "crc": crc, "len": ln,
-				"ts": fmt.Sprint(I(e, "ts")), "def": dus(I(e, "def"))})
+				"ts": fmt.Sprint(I(e, "ts")), "pnow": us(I(e, "ts")), "def": dus(I(e, "def"))})
 		case "TPutEnd":
 			put(map[string]interface{}{"ev": e.Ev, "t": S(e, "t"), "id": S(e, "id"), "ok": B(e, "ok")})
 		case "TPutAck":
